@@ -109,6 +109,7 @@ type Unit struct {
 	ncalls int
 	cardDone map[string]bool
 	scratch *Heap
+	tiDone map[string]bool
 	structKeys bool // summaries and abstracted calls are named by the structure of the code (C20)
 }
 
